@@ -894,6 +894,16 @@ class ndarray_shim(metaclass=_NdarrayMeta):
         return SymArr.input(f"uninit{next(_uninit)}", shape, _kind_of_type(dtype))
 
 
+def sym_shares_memory(a, b, *args, **kw):
+    """np.shares_memory / np.may_share_memory: two symbolic arrays share memory iff they are views of one buffer (the
+    model does not track which part of the buffer a view covers: overlapping or not is not distinguished)"""
+    if not _has_sym(a, b):
+        return _np.may_share_memory(a, b)
+    if isinstance(a, SymArr) and isinstance(b, SymArr):
+        return a._buf is b._buf
+    return False
+
+
 def sym_take(a, indices, axis=None, **kw):
     """np.take(a, indices, axis) = a[(:,)*axis + (indices,)]"""
     if not _has_sym(a, indices):
@@ -2525,6 +2535,8 @@ _FUNC_IMPL = {
     _np.isclose: sym_isclose,
     _np.array_equal: sym_array_equal,
     _np.take: sym_take,
+    _np.may_share_memory: sym_shares_memory,
+    _np.shares_memory: sym_shares_memory,
     _np.delete: sym_delete,
     _np.shape: lambda a: tuple(a.shape),
     _np.ndim: lambda a: a.ndim,
@@ -2623,6 +2635,8 @@ class NPShim:
     ndim = staticmethod(lambda a: a.ndim if isinstance(a, SymArr) else _np.ndim(a))
     empty = staticmethod(sym_empty)
     take = staticmethod(sym_take)
+    may_share_memory = staticmethod(sym_shares_memory)
+    shares_memory = staticmethod(sym_shares_memory)
     delete = staticmethod(sym_delete)
     arange = staticmethod(sym_arange)
     empty_like = staticmethod(sym_empty_like)
